@@ -3,6 +3,7 @@ classify (property violated on the implementation vs. mere divergence from the m
 """
 import concurrent.futures as cf
 import subprocess
+import threading
 import hashlib
 import os
 import collections
@@ -215,8 +216,8 @@ def _account(stats, meta, ops, model_lines):
         stats.samples.append(ops[:40])
 
 
-CHUNK_TIMEOUT = 600
-ONE_TIMEOUT = 60
+CHUNK_TIMEOUT = 150
+ONE_TIMEOUT = 25
 
 
 def _run_chunk(args):
@@ -230,11 +231,13 @@ def _run_chunk(args):
 
 
 def run_histories(hists, harness, proj, stats, chunk=300, max_fail=4, workers=None):
-    """hists: iterable of (meta, ops).  Returns list of failures (dicts with ops, mismatch)."""
+    """hists: iterable of (meta, ops).  Returns list of failures (dicts with ops, mismatch).
+    When the implementation dies inside a chunk, the history it died in is re-run alone (to get
+    its transcript up to the crash) and the rest of the chunk is resumed as a new chunk."""
     workers = workers or core.NCPU
     failures = []
-    batch = []
-    chunks = []
+    lock = threading.Lock()
+    chunks, batch = [], []
     for h in hists:
         batch.append(h)
         if len(batch) >= chunk:
@@ -242,27 +245,51 @@ def run_histories(hists, harness, proj, stats, chunk=300, max_fail=4, workers=No
             batch = []
     if batch:
         chunks.append(batch)
-    with cf.ThreadPoolExecutor(max_workers=workers) as ex:
-        futs = [ex.submit(_run_chunk, (i, c, harness)) for i, c in enumerate(chunks)]
-        for fut in cf.as_completed(futs):
-            idx, r = fut.result()
-            c = chunks[idx]
+
+    def record(ops, meta, m):
+        with lock:
+            nv = sum(1 for f in failures if f["mismatch"]["kind"] == "violation")
+            nd = len(failures) - nv
+            if (m["kind"] == "violation" and nv < max_fail) or (m["kind"] != "violation" and nd < 2):
+                failures.append(dict(ops=ops, meta=meta, mismatch=m))
+
+    def work(idx_c):
+        idx, c = idx_c
+        todo = c
+        rounds = 0
+        while todo:
+            rounds += 1
+            _, r = _run_chunk((f"{idx}_{rounds}", todo, harness))
             hi = core.split_histories(r["impl"])
             hm = core.split_histories(r["model"])
             crashed = r["impl_rc"] != 0
-            for k, (meta, ops) in enumerate(c):
+            # number of histories the implementation completed
+            done = len(hi) if not crashed else max(0, len(hi) - (1 if (hi and len(hi) <= len(todo) and r["impl"] and not r["impl"].endswith("R reset\n")) else 0))
+            done = min(done, len(todo))
+            for k in range(done):
+                meta, ops = todo[k]
                 mm = hm[k] if k < len(hm) else []
-                _account(stats, meta, ops, mm)
-                if k < len(hi) and not (crashed and k == len(hi) - 1 and len(hi) <= len(c)):
-                    m = compare_history(hi[k], mm, proj)
-                    if m is not None:
-                        nv = sum(1 for f in failures if f["mismatch"]["kind"] == "violation")
-                        nd = len(failures) - nv
-                        if (m["kind"] == "violation" and nv < max_fail) or (m["kind"] != "violation" and nd < 2):
-                            failures.append(dict(ops=ops, meta=meta, mismatch=m))
-                elif len(failures) < max_fail + 2:
-                    # implementation died in or before this history: re-run it alone
-                    m, _ = run_one(ops, harness, proj, tag=f"rerun{idx}")
-                    if m is not None:
-                        failures.append(dict(ops=ops, meta=meta, mismatch=m))
+                with lock:
+                    _account(stats, meta, ops, mm)
+                m = compare_history(hi[k], mm, proj)
+                if m is not None:
+                    record(ops, meta, m)
+            if not crashed or done >= len(todo):
+                if crashed and done >= len(todo):
+                    pass
+                break
+            # the history the implementation died in
+            meta, ops = todo[done]
+            m, r1 = run_one(ops, harness, proj, tag=f"rerun{idx}")
+            hm1 = core.split_histories(r1["model"])
+            with lock:
+                _account(stats, meta, ops, hm1[0] if hm1 else [])
+            if m is not None:
+                record(ops, meta, m)
+            todo = todo[done + 1:]
+            if rounds > 200:
+                break
+
+    with cf.ThreadPoolExecutor(max_workers=workers) as ex:
+        list(ex.map(work, enumerate(chunks)))
     return failures
